@@ -13,7 +13,7 @@ LEVEL = "exploration"
 ENGINE = "e2e-reference"
 TECHNIQUE = "boundary recorder on MPSBackend (solver=dmrg) + dense eigh oracle per step; canonical-form invariant on returned states"
 LEVEL_TEXT = ("Exploration: noiseless ground-rydberg sequences with constant, ramp-and-hold and slowly varying drives (2-8 atoms, global and "
-              "local channels, DMM), dt 5..50, precision 1e-5..1e-8, evaluation times at every step; reported energy >= exact ground energy "
+              "local channels, DMM), dt 5..50, precision 1e-5..1e-8, max_bond_dim unbounded or binding (2-3), evaluation times at every step; reported energy >= exact ground energy "
               "of that step's Hamiltonian, equal to it within 10*energy_tolerance + 100*precision on gapped instances (gap >= 0.5 rad/us, "
               "N <= 6), returned MPS normalised and canonical at its declared centre.")
 LEVEL_NOTE = "DMRG's own convergence criterion is an energy difference between sweeps (1e-5): 'matches within the solver's tolerance' is taken as 10x that plus the truncation term."
@@ -66,12 +66,13 @@ def run_case(case):
     dur = seq.get_duration()
     times = sorted({min(1.0, k * dt / dur) for k in range(0, int(dur // dt) + 1)} | {1.0})
     times = [t for t in times if t > 0]
+    cap = int(rng.choice([2, 3])) if (n >= 5 and rng.random() < 0.4) else 1024  # a binding max_bond_dim: only the variational bound, normalisation and canonical form are asserted
     cfg = MPSConfig(dt=dt, precision=prec, solver=Solver.DMRG, observables=[Energy(evaluation_times=times), StateResult(evaluation_times=times), Occupation(evaluation_times=times)],
-                    log_level=e2e.quiet(), num_gpus_to_use=0, optimize_qubit_ordering=False)
+                    log_level=e2e.quiet(), num_gpus_to_use=0, optimize_qubit_ordering=False, max_bond_dim=cap)
     cnt = {k: 0 for k in REQUIRED}
     cnt["rejected"] = 0
     viol, worst = [], {}
-    fp = f"{style}:n{n}:dt{dt:g}:p{prec:.0e}:{'dmm' if spec.get('dmm_map') else ''}:ph{int(ph != 0)}"
+    fp = f"{style}:n{n}:dt{dt:g}:p{prec:.0e}:{'dmm' if spec.get('dmm_map') else ''}:ph{int(ph != 0)}:cap{cap}"
     sample = {"spec": spec, "dt": dt, "precision": prec, "style": style}
     raised = None
     try:
@@ -118,7 +119,7 @@ def run_case(case):
         worst["below_ground_over_allow"] = max(worst.get("below_ground_over_allow", 0.0), (E0 - E) / (1e-8 * hn))
         if E < E0 - 1e-8 * hn:
             viol.append({"key": "C09:energy-below-exact-ground-energy", "msg": f"{fp}: t={t_rel:.3g} E={E!r} E0={E0!r}"})
-        if gap >= 0.5 and n <= 6:
+        if gap >= 0.5 and n <= 6 and cap >= 2 ** (n // 2):
             cnt["gapped_energy_matches_checked"] += 1
             tol = 10 * 1e-5 + 100 * prec
             worst["gapped_excess_over_tol"] = max(worst.get("gapped_excess_over_tol", 0.0), (E - E0) / tol)
